@@ -60,20 +60,27 @@ TOLERANCES = {
                    'inner product| + (|z-p|_M + |p-x|_M)(|p|_M + |x|_M)); a '
                    'point p displaced by c*eps*|p| from the exact minimiser '
                    'changes the gap by at most that last product times '
-                   'c*eps; mag = sum of '
+                   'c*eps (|p|_M + |x|_M is increased by amb*|1|_M when the '
+                   'rule chain passes through points of magnitude amb > '
+                   '|p|, |x|); mag = sum of '
                    'absolute values of the summed terms; the 1e3 absorbs the '
                    'deliberate 10*resolution(dtype) threshold shrink of '
                    'conj-L1, L2 and nuclear-norm proximals',
-    'feasibility': 'reference constraint residual <= 64*eps*n*scale (scale = '
-                   'largest magnitude involved); IndicatorSimplex / '
+    'feasibility': 'reference constraint residual <= (16*n + 180)*eps*scale '
+                   '(scale = largest magnitude met while the statement is '
+                   'rewritten down to the leaves; 180 = four stacked '
+                   'applications of the deliberate 10*resolution = 45 eps '
+                   'shrink); IndicatorSimplex / '
                    'IndicatorSumConstraint additionally accept their '
                    'documented sum_rtol',
     'firm': '<px-py, x-y>_M - |px-py|_M^2 >= -1e3*eps*(1 + (|x|_M + |y|_M + '
             '|px|_M + |py|_M)^2)',
-    'idempotence/step independence': 'max|a-b| <= 1e3*eps*max(1, sigma_max)*'
-                                     '(scale + |a|) (projections obtained '
-                                     'through Moreau carry the absolute '
-                                     '10*resolution shrink times sigma)',
+    'idempotence/step independence': 'max|a-b| <= 1e3*eps*max(1, sigma_eff)*'
+                                     '(scale + |a|), sigma_eff = largest '
+                                     'effective step along the rule chain '
+                                     '(projections obtained through Moreau '
+                                     'carry the absolute 10*resolution '
+                                     'shrink times sigma)',
     'reference norm': '| |x|_ref - space.norm(x) | <= 64*eps*n*|x|',
 }
 ASSUMPTIONS = [
@@ -170,7 +177,7 @@ def _wrap(draw, fd, e, rsp, mode, exp_type, el_ok):
     if rule == 'argscale':
         s = draw(scal)
         if (direct and e.name in ZERO_SCALE_OK and
-                not _has_rejection(fd) and draw(st.integers(0, 7)) == 0):
+                not _has_rejection(fd) and draw(st.integers(0, 3)) == 0):
             s = 0.0
         if mode == 'functional' and s < 0 and zoo.is_linear_tree(fd):
             s = -s      # see the catalogue entry 'ZeroFunctional*neg'
@@ -425,17 +432,23 @@ def _mnorm(M, a):
 class Problem(object):
     """p claimed to minimise node(z) + sum_k M_k (z_k - x_k)^2 / 2."""
 
-    def __init__(self, node, p, x, sigma):
+    def __init__(self, node, p, x, sigma, amb=0.0):
         self.node = node
         self.p = np.asarray(p, dtype=float)
         self.x = np.asarray(x, dtype=float)
         sg = np.asarray(sigma, dtype=float)
         self.M = node.sp.W / (sg if sg.ndim else float(sg))
         self.amb = max(float(np.abs(self.p).max(initial=0)),
-                       float(np.abs(self.x).max(initial=0)))
+                       float(np.abs(self.x).max(initial=0)), amb)
         self.fp, self.magp = None, None
         self.g = self.p - self.x           # gradient of the quadratic / M
         self.pn = _mnorm(self.M, self.p) + _mnorm(self.M, self.x)
+        own = max(float(np.abs(self.p).max(initial=0)),
+                  float(np.abs(self.x).max(initial=0)))
+        if amb > own:
+            # intermediate points of the rule chain are larger than p and x:
+            # they set the absolute rounding error of p
+            self.pn += amb * _mnorm(self.M, np.ones(self.p.size))
         self.gn = _mnorm(self.M, self.g)
 
     def gap(self, z):
@@ -766,8 +779,9 @@ def _run_tree(desc):
     notes = {}
     # ---- (1)+(2) feasibility and optimality certificate ------------------
     rng = np.random.RandomState(int(desc['seed']) % (2 ** 32))
-    problems = [Problem(*t) for t in R.reduce_problem(ref, pv, xv,
-                                                      sigma_flat)]
+    amb, sig_eff = R.ambient(ref, pv, xv, sigma_flat)
+    problems = [Problem(*t, amb=amb) for t in R.reduce_problem(
+        ref, pv, xv, sigma_flat)]
     nprobe = 0
     nfinite = 0
     used_scipy = False
@@ -847,8 +861,8 @@ def _run_tree(desc):
                     float(np.abs(pv).max(initial=0)), ref.typ())
         # projections computed through the Moreau identity inherit the
         # library's absolute threshold shrink multiplied by the step
-        smax = max(1.0, float(np.max(sigma_flat)) * 3.7 + 0.01)
-        itol = K_TOL * EPS * smax * (scale + np.abs(pv))
+        smax = max(1.0, sig_eff * 3.7 + 0.01)
+        itol = K_TOL * EPS * smax * (max(scale, amb) + np.abs(pv))
         if np.any(np.abs(again - pv) > itol):
             raise Violation(_sig('idempotence', *ctx),
                             'prox(prox(x)) != prox(x): max diff {:.3g}; '
